@@ -59,4 +59,10 @@ def badEdges : List LockEdge := lockEdgeWitnesses.filter (fun e => !edgeOk (e.he
 def lockedCallOk (c : String × Bool × Bool × Bool × String) : Bool := !c.2.1 || c.2.2.1 || c.2.2.2.1
 
 def lockedCallsOk : Bool := lockedCalls.all lockedCallOk
+
+/-- the count of a wait group that is protected by a token is only raised while holding the token, or before the object
+    is published (the protocol model `PxT` has no other `add` step) -/
+def wgAddOk (a : String × String × Bool × Bool × Bool × String) : Bool := !a.2.2.2.2.1 || a.2.2.1 || a.2.2.2.1
+
+def wgAddsOk : Bool := wgAdds.all wgAddOk
 end Lk
